@@ -58,7 +58,7 @@ def main():
                        "_parse_block ('push', 'pop'); it passes references and returns nothing. A tree without the hook is traced by subclassing "
                        "FlowParser as before (fallback); harness/selftest_hook.py shows both tracers record identical events."),
             "baseline_off_cmd": "cd /repo && /venv/bin/python -m pytest -q -p no:cacheprovider",
-            "source_commits": ["PENDING"],
+            "source_commits": ["9909a2b"],
             "add_only": True,
         },
         "engines": [{
